@@ -4,8 +4,11 @@ package zzvf
 
 import (
 	"runtime"
+	"sync/atomic"
 	"time"
 )
+
+var jitterState atomic.Uint64
 
 // QuiesceBase is the number of goroutines that exist before the harness body runs.
 var QuiesceBase = 0
@@ -23,4 +26,18 @@ func quiesceNative() int {
 		n = 0
 	}
 	return n
+}
+
+// Jitter pauses for a random short time (native replays under the race detector insert it, through
+// overlay copies of the repository files, before every mutex Lock to widen interleaving windows).
+func Jitter() {
+	n := jitterState.Add(0x9e3779b97f4a7c15)
+	n ^= n >> 29
+	switch n % 4 {
+	case 0:
+	case 1:
+		runtime.Gosched()
+	default:
+		time.Sleep(time.Duration(n%97) * time.Microsecond)
+	}
 }
